@@ -215,6 +215,16 @@ def canon_bytes(b: bytes) -> bytes:
     return hashlib.sha1(b).digest()[:6] + bytes([len(b) % 251])
 
 
+SEARCHING = False
+
+
+def model_cases(tag, imports, fn, cases, shard=400):
+    """model vs implementation inside coqc; skipped while the driver only searches for a failing input"""
+    if SEARCHING:
+        return [], []
+    return coqrun.run_cases(tag, imports, fn, cases, shard=shard)
+
+
 def fail(res, sig, what, replay):
     res.failures.append(Failure(sig, what, replay))
 
@@ -250,7 +260,7 @@ def check_torch_chunk(ctx: Ctx, res: Result):
         exp = [shape[:dim] + [l] + shape[dim + 1:] for l in one]
         if got != exp:
             res.mismatches.append(Mismatch("chunk:torch.chunk~torch_chunk", {"shape": shape, "n": n, "dim": dim}, got, exp))
-    bad, errs = coqrun.run_cases("C16_tc", IMP_CHUNK, "obs_torch_chunk", cases)
+    bad, errs = model_cases("C16_tc", IMP_CHUNK, "obs_torch_chunk", cases)
     mism(res, "chunk:torch.chunk~torch_chunk", bad, errs, cases, meta)
     res.traces_validated += len(cases)
 
@@ -355,7 +365,7 @@ def check_chunk(ctx: Ctx, res: Result):
                 res.count("chunk.pieces", "error" if o is None else min(len(o[0]), 6))
             cases.append((f"({term(shape)}, {term(Nat(dim))}, {esize}, {len(obs)})", val(runs)))
             meta.append(params)
-    bad, errs = coqrun.run_cases("C16_ch", IMP_CHUNK, "obs_chunk_sweep", cases, shard=300)
+    bad, errs = model_cases("C16_ch", IMP_CHUNK, "obs_chunk_sweep", cases, shard=300)
     mism(res, "chunk:chunk_tensor~model", bad, errs, cases, meta)
     res.traces_validated += len(cases)
 
@@ -418,7 +428,7 @@ def check_subdivide(ctx: Ctx, res: Result):
                 res.count("subdivide.pieces", "error" if o is None else min(len(o[0]), 6))
             cases.append((f"({term(offs)}, {term(shape)}, {term(Nat(dim))}, {esize}, {len(obs)})", val(runs)))
             meta.append(params)
-    bad, errs = coqrun.run_cases("C16_sd", IMP_CHUNK, "obs_subdivide_sweep", cases, shard=300)
+    bad, errs = model_cases("C16_sd", IMP_CHUNK, "obs_subdivide_sweep", cases, shard=300)
     mism(res, "shard:subdivide_shard~model", bad, errs, cases, meta)
     res.traces_validated += len(cases)
 
@@ -500,7 +510,7 @@ def check_tile(ctx: Ctx, res: Result):
                 res.count("tile.tiles", min(len(o[0]), 6))
             cases.append((f"({term(shape)}, {term(flat)}, {esize}, {base or 0}, {len(obs)})", val(runs)))
             meta.append(dict(params, flat=flat))
-    bad, errs = coqrun.run_cases("C16_ti", IMP_CHUNK, "obs_tile_sweep", cases, shard=300)
+    bad, errs = model_cases("C16_ti", IMP_CHUNK, "obs_tile_sweep", cases, shard=300)
     mism(res, "tile:prepare_read_tiled~model", bad, errs, cases, meta)
     res.traces_validated += len(cases)
 
@@ -594,7 +604,6 @@ def observe_batch_write(symbols, order, T, delays=None):
 
     # ---- oracle: what the property demands of the write plan (nothing about WHICH requests are batched or how
     # full a slab may get: that is the model correspondence's business)
-    relocated = {r[0]: r for r in obs_reloc}
     passed = [p[0] for p in obs_pass]
     it = iter(order)
     if not all(any(i == j for j in it) for i in passed) or \
@@ -837,12 +846,12 @@ def check_batch(ctx: Ctx, res: Result):
         rq = "[" + "; ".join(f"({i}, {term(b)}, {sz})" for i, b, sz in reqs_in_order) + "]"
         cases.append((f"({rq}, {tmax})", val(runs)))
         meta.append(params)
-    bad, errs = coqrun.run_cases("C16_bw", IMP_BATCH, "obs_batch_write_sweep", cases, shard=300)
+    bad, errs = model_cases("C16_bw", IMP_BATCH, "obs_batch_write_sweep", cases, shard=300)
     mism(res, "batch:batch_write_requests~model", bad, errs, cases, meta)
     sc, sm, rc, rm = collect
-    bad, errs = coqrun.run_cases("C16_st", IMP_BATCH, "obs_stage", sc)
+    bad, errs = model_cases("C16_st", IMP_BATCH, "obs_stage", sc)
     mism(res, "batch:BatchedBufferStager~stage_slab", bad, errs, sc, sm)
-    bad, errs = coqrun.run_cases("C16_rb", IMP_BATCH, "obs_batch_read", rc, shard=300)
+    bad, errs = model_cases("C16_rb", IMP_BATCH, "obs_batch_read", rc, shard=300)
     mism(res, "batch:batch_read_requests~model", bad, errs, rc, rm)
     res.traces_validated += len(cases) + len(sc) + len(rc)
     res.count("batch.stage_cases", len(sc))
@@ -965,7 +974,7 @@ def check_read_synth(ctx: Ctx, res: Result):
             st = "[" + "; ".join(f"({p}, {term(o)})" for p, o in objs.items()) + "]"
             cases.append((f"({rq}, {st})", val([plan, deliveries])))
             meta.append(params)
-    bad, errs = coqrun.run_cases("C16_rs", IMP_BATCH, "obs_batch_read", cases, shard=400)
+    bad, errs = model_cases("C16_rs", IMP_BATCH, "obs_batch_read", cases, shard=400)
     mism(res, "batch:batch_read_requests~model", bad, errs, cases, meta)
     res.traces_validated += len(cases)
 
@@ -1068,21 +1077,47 @@ def check_pipeline(ctx: Ctx, res: Result):
 
 
 # --------------------------------------------------------------------------- driver
-def correspond(ctx: Ctx) -> Result:
+CHECKS = [
+    ("chunk:torch.chunk", lambda c, r: check_torch_chunk(c, r)),
+    ("chunk:chunk_tensor", lambda c, r: check_chunk(c, r)),
+    ("shard:", lambda c, r: check_subdivide(c, r)),
+    ("tile:", lambda c, r: check_tile(c, r)),
+    ("batch:", lambda c, r: (check_batch(c, r), check_read_synth(c, r))),
+]
+
+
+def _run(ctx: Ctx, selected) -> Result:
     res = Result(rule=RULE)
-    check_torch_chunk(ctx, res)
-    check_chunk(ctx, res)
-    check_subdivide(ctx, res)
-    check_tile(ctx, res)
-    check_batch(ctx, res)
-    check_read_synth(ctx, res)
-    check_pipeline(ctx, res)
-    res.exhaustive = ctx.thorough
     try:
-        _loop().close()
+        for prefix, fn in CHECKS:
+            if selected is None or any(n.startswith(prefix) for n in selected):
+                fn(ctx, res)
+        check_pipeline(ctx, res)
     finally:
-        globals().pop("_LOOP", None)
+        try:
+            _loop().close()
+        finally:
+            globals().pop("_LOOP", None)
+    res.exhaustive = ctx.thorough
     return res
+
+
+def correspond(ctx: Ctx) -> Result:
+    return _run(ctx, None)
+
+
+def search(ctx: Ctx, broken) -> Result:
+    """an obligation broke and the first pass found no failing input: re-run the direct oracles (no Coq) over the
+    thorough scope, restricted to the planners whose correspondence broke (everything when a theorem broke)"""
+    global SEARCHING
+    names = [o.name for o in broken]
+    corr = [n.split("correspondence:", 1)[1] for n in names if n.startswith("correspondence:")]
+    selected = corr if corr and len(corr) == len(names) else None
+    SEARCHING = True
+    try:
+        return _run(ctx, selected)
+    finally:
+        SEARCHING = False
 
 
 def replay(ctx: Ctx, data):
